@@ -135,6 +135,14 @@ def run_history(case, backends=('mem', 'file')):
     try:
         for op in case['ops']:
             name = op[0]
+            if name == 'reopen':
+                # the file-backed cache is closed and opened again: everything stored must still be there
+                if 'file' in caches:
+                    caches['file']._db.close()
+                    caches['file'] = Cache(fn)
+                    pops['file'] = Population(caches['file'])
+                feats.add('reopen')
+                continue
             if name == 'advance':
                 now += op[1]
                 clock.set_now(now)
@@ -386,6 +394,7 @@ def op_strategy(npool, nsrc):
         st.tuples(st.just('stale'), ni, srcs),
         st.tuples(st.just('subjects')),
         st.tuples(st.just('advance'), st.sampled_from([2, 100, 102, 200, 1000002])),
+        st.tuples(st.just('reopen')),
     ).map(list)
 
 
